@@ -1,6 +1,283 @@
 /-
-  C20 — property theorems (placeholder: no theorem yet, the property is not claimed).
+  C20 — MockDisplay is a faithful test oracle.
+
+  "After any sequence of drawing operations `MockDisplay::get_pixel` returns the colour last drawn
+  to a point and `None` for untouched points; `from_pattern` and the `Debug` output round-trip; two
+  displays compare equal, and `diff` is empty, exactly when all 64 x 64 cells agree;
+  `affected_area` is the tight bounding box of the touched cells. Drawing panics exactly when a
+  pixel lies outside the display or is drawn a second time while the respective check is enabled,
+  and never otherwise."
+
+  Property theorems only (helper lemmas live in EG/Lemmas/Mock*.lean). All statements are about
+  the model `EG.Model.MockDisplay` (a literal transcription of src/mock_display/{mod,color_mapping}.rs)
+  and hold for every display state, every history and every flag combination; a panic is the
+  result value `Res.panic` / `none`. `get_pixel` is claimed for the 64 x 64 cells of the display
+  (`Inside p`), which is what the property quantifies over; what the unchecked index does for
+  other arguments is recorded as observations at the end.
 -/
-import EG.Basic.Core
+import EG.Lemmas.Mock
+import EG.Lemmas.MockArea
 namespace EG.C20
+open EG EG.Mock
+
+/-! ### `get_pixel` after any history -/
+
+/-- After any sequence of operations (draw_pixel, draw_iter, fill_contiguous, fill_solid, clear,
+set_pixel, flag changes — with in-range, out-of-range and repeated points) that does not panic,
+started from any display: `get_pixel p` returns, for every cell `p` of the display, the value last
+written to `p`, and the old content if the history never wrote to `p`. Writes to points outside
+the display (possible when out-of-bounds drawing is allowed) change nothing: they are not writes
+to `p`. -/
+theorem history_refines_map (d0 d : MD) (ops : List Op) (h : d0.run ops = .ok d)
+    (p : Pt) (hp : Inside p) :
+    d.getPixel p = some (lastTo (ops.flatMap Op.writes) p (d0.cell p)) := by
+  rw [getPixel_inside d hp, run_ok_cell ops h hp]
+
+example : ∃ d, (MD.new.setAllowOob true).run
+    [.drawPixel ⟨1, 2⟩ 5, .drawPixel ⟨-1, 70⟩ 9, .call (.fillSolid ⟨⟨3, 3⟩, ⟨2, 1⟩⟩ 7)] = .ok d ∧
+    Inside ⟨1, 2⟩ := ⟨_, rfl, by decide⟩
+
+/-- On a fresh display: the colour last drawn, `None` for untouched points. -/
+theorem history_refines_map_new (d0 d : MD) (ops : List Op) (hnew : d0.pixels = MD.new.pixels)
+    (h : d0.run ops = .ok d) (p : Pt) (hp : Inside p) :
+    d.getPixel p = some (lastTo (ops.flatMap Op.writes) p none) := by
+  rw [history_refines_map d0 d ops h p hp]
+  have : d0.cell p = none := by
+    unfold MD.cell MD.get; rw [hnew]; exact cell_new p
+  rw [this]
+
+example : (MD.new.setAllowOverdraw true).pixels = MD.new.pixels := rfl
+
+/-- `None` for untouched points. -/
+theorem untouched_is_none (d0 d : MD) (ops : List Op) (hnew : d0.pixels = MD.new.pixels)
+    (h : d0.run ops = .ok d) (p : Pt) (hp : Inside p)
+    (hun : ∀ w ∈ ops.flatMap Op.writes, w.1 ≠ p) :
+    d.getPixel p = some none := by
+  rw [history_refines_map_new d0 d ops hnew h p hp, lastTo_eq_find]
+  have : (ops.flatMap Op.writes).reverse.find? (fun w => decide (w.1 = p)) = none := by
+    rw [List.find?_eq_none]
+    intro w hw
+    have := hun w (List.mem_reverse.mp hw)
+    simpa using this
+  rw [this]
+
+example : ∀ w ∈ ([Op.drawPixel ⟨1, 2⟩ 5, Op.setOob true] : List Op).flatMap Op.writes, w.1 ≠ (⟨0, 0⟩ : Pt) := by
+  decide
+
+/-- Histories of `DrawTarget` calls only: `get_pixel` is the pixel map of `EG.Model.Target`
+(`lastWrite` = the colour of the last pixel drawn to `p`), i.e. `MockDisplay` shows exactly what
+the recording targets of the other properties record. -/
+theorem drawing_history_last_write (d0 d : MD) (calls : List Call) (hnew : d0.pixels = MD.new.pixels)
+    (h : d0.run (calls.map Op.call) = .ok d) (p : Pt) (hp : Inside p) :
+    d.getPixel p = some (lastWrite (calls.flatMap (Call.lowerDefault displayArea)) p) := by
+  have key : ∀ cs : List Call, (cs.map Op.call).flatMap Op.writes
+      = drawWrites (cs.flatMap (Call.lowerDefault displayArea)) := by
+    intro cs
+    induction cs with
+    | nil => rfl
+    | cons c rest ih =>
+      simp only [List.map_cons, List.flatMap_cons, drawWrites, List.map_append] at ih ⊢
+      rw [ih]; rfl
+  rw [history_refines_map_new d0 d _ hnew h p hp, ← lastTo_drawWrites, key]
+
+example : ∃ d, MD.new.run ([Call.fillSolid ⟨⟨0, 0⟩, ⟨2, 2⟩⟩ 1, Call.drawIter []].map Op.call) = .ok d := ⟨_, rfl⟩
+
+/-! ### When drawing panics -/
+
+/-- `draw_pixel` panics exactly when the point lies outside the display while out-of-bounds
+drawing is not allowed, or the point is inside, overdraw is not allowed and the cell already holds
+a colour — and never otherwise. The order is the order of the source: for a point outside only the
+bounds flag matters. -/
+theorem panics_iff (d : MD) (p : Pt) (c : Color) :
+    (d.drawPixel p c).isOk = false ↔
+      (¬ Inside p ∧ d.allowOob = false) ∨
+      (Inside p ∧ d.allowOverdraw = false ∧ ∃ old, d.getPixel p = some (some old)) := by
+  rw [drawPixel_isOk_false_iff]
+  unfold Offends
+  constructor
+  · rintro (h | ⟨hi, ha, hc⟩)
+    · exact Or.inl h
+    · refine Or.inr ⟨hi, ha, ?_⟩
+      rw [getPixel_inside d hi]
+      cases hcell : d.cell p with
+      | none => rw [hcell] at hc; cases hc
+      | some v => exact ⟨v, rfl⟩
+  · rintro (h | ⟨hi, ha, v, hv⟩)
+    · exact Or.inl h
+    · refine Or.inr ⟨hi, ha, ?_⟩
+      rw [getPixel_inside d hi] at hv
+      have hc : d.cell p = some v := by simpa using hv
+      rw [hc]; rfl
+
+/-- A panicking `draw_pixel` leaves the display unchanged. -/
+theorem panic_leaves_display (d d' : MD) (p : Pt) (c : Color) (h : d.drawPixel p c = .panic d') :
+    d' = d := drawPixel_panic_state h
+
+example : MD.new.drawPixel ⟨64, 0⟩ 1 = .panic MD.new := rfl
+
+/-- The allowed out-of-bounds path: nothing changes (and the overdraw flag is not consulted). -/
+theorem outside_allowed_unchanged (d : MD) (p : Pt) (c : Color) (hp : ¬ Inside p)
+    (ha : d.allowOob = true) : d.drawPixel p c = .ok d := by
+  rw [drawPixel_spec]; simp [hp, ha]
+
+example : ¬ Inside ⟨-1, 3⟩ ∧ (MD.new.setAllowOob true).allowOob = true := by decide
+
+/-- A draw that does not panic inside the display stores the colour, changes no other cell and
+no flag. -/
+theorem draw_ok_stores (d d' : MD) (p : Pt) (c : Color) (hp : Inside p)
+    (h : d.drawPixel p c = .ok d') :
+    d'.getPixel p = some (some c) ∧
+    (∀ q, Inside q → q ≠ p → d'.getPixel q = d.getPixel q) ∧
+    d'.allowOverdraw = d.allowOverdraw ∧ d'.allowOob = d.allowOob := by
+  refine ⟨?_, ?_, drawPixel_ok_flags h⟩
+  · rw [getPixel_inside d' hp, drawPixel_ok_cell h hp]; simp
+  · intro q hq hne
+    rw [getPixel_inside d' hq, getPixel_inside d hq, drawPixel_ok_cell h hq]
+    have : ¬ p = q := fun e => hne e.symm
+    simp [this]
+
+example : ∃ d', MD.new.drawPixel ⟨3, 1⟩ 1 = .ok d' ∧ Inside ⟨3, 1⟩ := ⟨_, rfl, by decide⟩
+
+/-- `draw_iter` (and with it `fill_contiguous`, `fill_solid`, `clear`, which `MockDisplay` inherits
+from the trait defaults) panics exactly when one of its pixels lies outside the display while the
+bounds check is on, or hits a cell that the display held or an earlier pixel of the same call has
+drawn while the overdraw check is on. -/
+theorem draw_iter_panics_iff (d : MD) (ws : Writes) :
+    (d.drawIter ws).isOk = false ↔
+      ∃ pre w post, ws = pre ++ w :: post ∧
+        ((¬ Inside w.1 ∧ d.allowOob = false) ∨
+         (Inside w.1 ∧ d.allowOverdraw = false ∧
+            (lastTo (drawWrites pre) w.1 (d.cell w.1)).isSome = true)) :=
+  drawIter_isOk_false_iff ws d
+
+theorem draw_call_panics_iff (d : MD) (c : Call) :
+    (d.step (.call c)).isOk = false ↔
+      ∃ pre w post, c.lowerDefault displayArea = pre ++ w :: post ∧
+        ((¬ Inside w.1 ∧ d.allowOob = false) ∨
+         (Inside w.1 ∧ d.allowOverdraw = false ∧
+            (lastTo (drawWrites pre) w.1 (d.cell w.1)).isSome = true)) :=
+  drawIter_isOk_false_iff _ d
+
+/-- What a panicking `draw_iter` leaves behind (observable through `catch_unwind`): exactly the
+pixels before the offending one have been drawn. -/
+theorem draw_iter_panic_state (d d' : MD) (ws : Writes) (h : d.drawIter ws = .panic d') :
+    ∃ pre w post, ws = pre ++ w :: post ∧ d.drawIter pre = .ok d' ∧
+      (d'.drawPixel w.1 w.2).isOk = false := drawIter_panic_state ws h
+
+example : ∃ d', MD.new.drawIter [(⟨0, 0⟩, 1), (⟨0, 0⟩, 2)] = .panic d' := ⟨_, rfl⟩
+
+/-- `set_pixel` panics exactly outside the display, whatever the flags; inside it overwrites or
+erases the cell without any check. -/
+theorem set_pixel_panics_iff (d : MD) (p : Pt) (c : Option Color) :
+    d.setPixel p c = none ↔ ¬ Inside p := by
+  rw [setPixel_spec]; by_cases hp : Inside p <;> simp [hp]
+
+/-! ### Equality and `diff` -/
+
+/-- Two displays compare equal exactly when all 64 x 64 cells agree (stated over the cell
+function; the two flags are not part of the comparison). -/
+theorem eq_iff_cells (a b : MD) :
+    a.eq b = true ↔ ∀ p, Inside p → a.getPixel p = b.getPixel p := by
+  rw [eq_iff_pixels, pixels_eq_iff_cells]
+
+/-- `PartialEq` ignores `allow_overdraw` / `allow_out_of_bounds_drawing`. -/
+theorem eq_ignores_flags (a : MD) (o b : Bool) : a.eq ⟨a.pixels, o, b⟩ = true := by
+  rw [eq_iff_pixels]
+
+/-- `diff` never panics. -/
+theorem diff_total (a b : MD) : ∃ D, a.diff b = some D := by
+  obtain ⟨D, h, _⟩ := diff_spec a b; exact ⟨D, h⟩
+
+/-- Each cell of `diff` carries the documented colour code of the two cells it compares:
+`None` equal, green only in `self`, red only in `other`, blue both set and different. -/
+theorem diff_cells (a b D : MD) (h : a.diff b = some D) (p : Pt) (hp : Inside p)
+    (s o : Option Color) (hs : a.getPixel p = some s) (ho : b.getPixel p = some o) :
+    D.getPixel p = some (diffColor s o) := by
+  obtain ⟨D', h', hc⟩ := diff_spec a b
+  rw [h] at h'; cases h'
+  rw [getPixel_inside a hp] at hs
+  rw [getPixel_inside b hp] at ho
+  cases hs; cases ho
+  rw [getPixel_inside D hp, hc p hp]
+
+example : ∃ D, (MD.new.upd 5 (some 1)).diff MD.new = some D ∧ Inside ⟨5, 0⟩ ∧
+    (MD.new.upd 5 (some 1)).getPixel ⟨5, 0⟩ = some (some 1) ∧ MD.new.getPixel ⟨5, 0⟩ = some none := by
+  obtain ⟨D, h⟩ := diff_total (MD.new.upd 5 (some 1)) MD.new
+  exact ⟨D, h, by decide, rfl, rfl⟩
+
+/-- `diff` is empty (equal to a fresh display) exactly when all 64 x 64 cells agree. -/
+theorem diff_empty_iff (a b D : MD) (h : a.diff b = some D) :
+    D.eq MD.new = true ↔ ∀ p, Inside p → a.getPixel p = b.getPixel p := by
+  obtain ⟨D', h', hc⟩ := diff_spec a b
+  rw [h] at h'; cases h'
+  rw [eq_iff_cells]
+  constructor
+  · intro hD p hp
+    have := hD p hp
+    rw [getPixel_inside D hp, getPixel_inside MD.new hp, hc p hp, cell_new] at this
+    have hn : diffColor (a.cell p) (b.cell p) = none := by simpa using this
+    rw [getPixel_inside a hp, getPixel_inside b hp, (diffColor_eq_none_iff _ _).mp hn]
+  · intro hab p hp
+    have := hab p hp
+    rw [getPixel_inside a hp, getPixel_inside b hp] at this
+    have he : a.cell p = b.cell p := by simpa using this
+    rw [getPixel_inside D hp, getPixel_inside MD.new hp, hc p hp, cell_new,
+      (diffColor_eq_none_iff _ _).mpr he]
+
+/-- ... i.e. exactly when the displays compare equal. -/
+theorem diff_empty_iff_eq (a b D : MD) (h : a.diff b = some D) :
+    D.eq MD.new = true ↔ a.eq b = true := by
+  rw [diff_empty_iff a b D h, eq_iff_cells]
+
+/-! ### `affected_area` -/
+
+/-- `affected_area` contains every touched cell. -/
+theorem affected_area_contains (d : MD) (p : Pt) (h : Touched d p) :
+    d.affectedArea.contains p = true := by
+  obtain ⟨tl, br, he, ht⟩ := affectedArea_of_touched d ⟨p, h⟩
+  have hb := ht.bound p ((touched_iff d p).mpr h)
+  rw [he, Rect.contains_withCorners]; omega
+
+example : Touched (MD.new.upd 5 (some 1)) ⟨5, 0⟩ := ⟨by decide, 1, rfl⟩
+
+/-- Tight: each of the four sides of `affected_area` passes through a touched cell. -/
+theorem affected_area_sides_touch (d : MD) (h : ∃ p, Touched d p) :
+    (∃ p, Touched d p ∧ p.x = d.affectedArea.tl.x) ∧
+    (∃ p, Touched d p ∧ p.y = d.affectedArea.tl.y) ∧
+    (∃ p, Touched d p ∧ p.x = d.affectedArea.tl.x + d.affectedArea.size.w - 1) ∧
+    (∃ p, Touched d p ∧ p.y = d.affectedArea.tl.y + d.affectedArea.size.h - 1) := by
+  obtain ⟨tl, br, he, ht⟩ := affectedArea_of_touched d h
+  obtain ⟨e1, e2, e3⟩ := tight_sides ht
+  rw [he, e2, e3, e1]
+  obtain ⟨l, hl, hl'⟩ := ht.left
+  obtain ⟨t, htt, ht'⟩ := ht.top
+  obtain ⟨r, hr, hr'⟩ := ht.right
+  obtain ⟨b, hb, hb'⟩ := ht.bottom
+  exact ⟨⟨l, (touched_iff d l).mp hl, hl'⟩, ⟨t, (touched_iff d t).mp htt, ht'⟩,
+    ⟨r, (touched_iff d r).mp hr, hr'⟩, ⟨b, (touched_iff d b).mp hb, hb'⟩⟩
+
+/-- Hence it is the least rectangle containing the touched cells. -/
+theorem affected_area_least (d : MD) (r : Rect) (h : ∀ p, Touched d p → r.contains p = true)
+    (q : Pt) (hq : d.affectedArea.contains q = true) : r.contains q = true := by
+  by_cases hex : ∃ p, Touched d p
+  · obtain ⟨⟨l, hl, hl'⟩, ⟨t, ht, ht'⟩, ⟨rr, hr, hr'⟩, ⟨b, hb, hb'⟩⟩ := affected_area_sides_touch d hex
+    have h1 := Rect.contains_iff.mp (h l hl)
+    have h2 := Rect.contains_iff.mp (h t ht)
+    have h3 := Rect.contains_iff.mp (h rr hr)
+    have h4 := Rect.contains_iff.mp (h b hb)
+    rw [Rect.contains_iff] at hq ⊢
+    omega
+  · rw [affectedArea_of_untouched d hex] at hq
+    rw [Rect.contains_false_of_zero (Or.inl rfl)] at hq
+    cases hq
+
+/-- Zero-sized (`Rectangle::zero()`) when nothing is touched. -/
+theorem affected_area_zero_of_untouched (d : MD) (h : ¬ ∃ p, Touched d p) :
+    d.affectedArea = Rect.zero := affectedArea_of_untouched d h
+
+example : ¬ ∃ p, Touched MD.new p := by
+  rintro ⟨p, hp, c, hc⟩
+  rw [getPixel_inside MD.new hp, cell_new] at hc
+  cases hc
+
 end EG.C20
